@@ -101,7 +101,7 @@ def main(tier, replay):
                         "float arithmetic is modelled exactly in Rat (binary64 for the in-place efficiency sweeps on more than 9 / 8 detectors and for log) and compared with a derived forward bound",
                         "find_max() is modelled for non-negative data; 32-bit overflow not modelled",
                         "block factors (FanProjData) are only executed when BlockData3D::is_in_data holds for every entry of the loop nest (otherwise apply_block_norm reads BlockData3D out of range: KNOWN-CANDIDATE block-norm:...)",
-                        "DetPairData: descent of the efficiency iteration, fixed points of iterate_geo_norm / iterate_block_norm and multiply_crystal_factors are oracle-only (no Lean theorem); ML_estimate_component_based_normalisation is compared with a recomputation from the building blocks, not modelled in Lean",
+                        "DetPairData: the fixed points of iterate_geo_norm / iterate_block_norm and the identity KL(DetPairData) = 2 x (sum once per pair) for symmetric data are correspondence + oracle only (no Lean theorem; round trip, apply/un-apply, product of two detectors, efficiency fixed point and descent are theorems); multiply_crystal_factors is oracle-only; ML_estimate_component_based_normalisation is compared with a recomputation from the building blocks, not modelled in Lean",
                         "scanners with virtual crystals have 1 virtual crystal per block (hard-wired to the scanner type in Scanner.cxx); the Lean theorems hold for any number"]
     if audit:
         vlib.proof_coverage(chk, audit, "cd lean && lake build StirVerif.C20.Props Driver.C20 && lake env lean ../build/out/Audit_C20.lean")
